@@ -401,6 +401,14 @@ fn gen(r: &mut Rng, tier: Tier, out: &mut Out) {
 		let c = fvh::rawgolden::golden();
 		emit_value_ops(out, &to_val_ClassFile(&c), true);
 		if let Some(b) = write_class(&c) { out.op("raw-read", &[hex(&b)]); out.op("raw-consts-agree", &[hex(&b)]); }
+		// the same class without the two attributes of the known defect regions: every other attribute kind, frame kind,
+		// element value kind and pool entry kind at once in front of the JVMS frame walker
+		let mut c2 = c.clone();
+		c2.attributes.retain(|a| !matches!(a, raw_class_file::AttributeInfo::NestMembers { .. }));
+		for m in &mut c2.methods { m.attributes.retain(|a| !matches!(a, raw_class_file::AttributeInfo::MethodParameters { .. })); }
+		out.stats.hit("golden:named-fields-class-outside-known-regions");
+		emit_value_ops(out, &to_val_ClassFile(&c2), true);
+		if let Some(b) = write_class(&c2) { out.op("oracle-rt-bytes", &[hex(&b)]); mutate(r, &b, out); }
 	}
 
 	// hand-made edge cases: empty input, header only, pool count 0 (u16 underflow in `constant_pool_count - 1`)
